@@ -120,11 +120,16 @@ def gen_graph(rng, flavour=None):
         edges.append(([gen_id(rng, set(ids))], [1], [[1]], [[[1, 0]]]))
     case = {'kinds': kinds, 'ids': ids, 'fixed': fixed, 'edges': edges, 'ffp': rng.random() < 0.5,
             'dx_seed': rng.randrange(10 ** 9)}
+    if rng.random() < 0.3:
+        # every information matrix multiplied by a power of two (exact in doubles): the assembled system is the model's integer system
+        # times that power -- tiny and huge information must not change the bookkeeping
+        case['scale_pow'] = rng.choice([-60, -40, -30, 30, 50])
     if rng.random() < 0.45:
         # SEQUENCE on one Graph object: 2-3 optimizer calls, a fixed vertex possibly RELEASED in between, and some REAL
         # EdgeOdometry objects between R^n vertices (integer data: err = p2 - p1 - z, J = [-I, I]), placed anywhere in the edge list
         case['steps'] = rng.choice([2, 2, 3])
         case['release'] = rng.random() < 0.6
+        case['fix_later'] = rng.random() < 0.4       # a vertex that was free in an earlier call is fixed before a later one
         case['ffp2'] = rng.random() < 0.25
         real = {}
         pairs = [(a, b) for a in range(nv) for b in range(nv) if a != b and kinds[a] == kinds[b] and kinds[a] in ('R2', 'R3')
@@ -150,13 +155,14 @@ def run_impl(case):
     rng = random.Random(case['dx_seed'])
     vs = [Vertex(i, make_pose(rng, k), fixed=f) for i, k, f in zip(case['ids'], case['kinds'], case['fixed'])]
     real = {int(k): v for k, v in case.get('real', {}).items()}
+    sc = 2.0 ** case.get('scale_pow', 0)
     es = []
     for j, (vids, err, om, jacs) in enumerate(case['edges']):
         if j in real:
             cls = PoseR2 if len(real[j]['z']) == 2 else PoseR3
-            es.append(EdgeOdometry(list(vids), np.array(om, dtype=np.float64), cls([float(x) for x in real[j]['z']])))
+            es.append(EdgeOdometry(list(vids), np.array(om, dtype=np.float64) * sc, cls([float(x) for x in real[j]['z']])))
         else:
-            es.append(ScriptedEdge(list(vids), np.array(om, dtype=np.float64), err, jacs))
+            es.append(ScriptedEdge(list(vids), np.array(om, dtype=np.float64) * sc, err, jacs))
     if rng.random() < 0.3:
         # the same edge objects were used before in ANOTHER graph over different Vertex objects carrying the same ids:
         # construction must re-bind every edge to the vertices of THIS graph
@@ -177,6 +183,10 @@ def run_impl(case):
             held = [k for k, v in enumerate(vs) if v.fixed]
             if held:
                 vs[rng.choice(held)].fixed = False      # a vertex held in the earlier pass is released
+        if st > 0 and case.get('fix_later'):
+            free_now = [k for k, v in enumerate(vs) if not v.fixed]
+            if free_now:
+                vs[rng.choice(free_now)].fixed = True
         ffp = case['ffp'] if st == 0 else case.get('ffp2', False)
         eff = []
         for j, (vids, err, om, jacs) in enumerate(case['edges']):
@@ -189,8 +199,19 @@ def run_impl(case):
         rec = {}
 
         def fake_spsolve(A, b):
-            rec['A'] = np.array(A.toarray(), dtype=np.float64)
-            rec['b'] = np.array(b, dtype=np.float64)
+            # recorded with the power-of-two scale of the information removed (exact); identity blocks of fixed vertices are not scaled
+            A = np.array(A.toarray(), dtype=np.float64)
+            fx = np.zeros(len(A), dtype=bool)
+            off_ = 0
+            for k_, v_ in enumerate(vs):
+                d_ = DIMS[case['kinds'][k_]]
+                if v_.fixed:
+                    fx[off_:off_ + d_] = True
+                off_ += d_
+            free = ~fx
+            A[np.ix_(free, free)] = A[np.ix_(free, free)] / sc
+            rec['A'] = A
+            rec['b'] = np.array(b, dtype=np.float64) / sc
             return dx.copy()
         before = [v.pose.copy() for v in vs]
         before_arr = [np.array(v.pose) for v in vs]
@@ -229,7 +250,7 @@ def run_impl(case):
                             'fixed_after': fixed_after, 'step': st, 'chi2_after': chi2_after, 'has_real': bool(real),
                             'slots': [[next((k for k, w in enumerate(vs) if w is v), -1) for v in e.vertices] for e in es],
                             'moved_ok': moved_ok, 'detail': detail,
-                            'graph_chi2': float(g._chi2) if g._chi2 is not None else None}))
+                            'graph_chi2': float(g._chi2) / sc if g._chi2 is not None else None}))
     return out
 
 
@@ -259,7 +280,7 @@ def run(seed, n_cases, corpus=None):
     okm, logm = vlib.make(['lib/GraphZ.vo'])
     res = {'evaluations': 0, 'agree': 0, 'disagreements': [], 'coq_errors': [],
            'stats': {'vertices': {}, 'edges': {}, 'fixed_patterns': {}, 'keyerror': 0, 'duplicate_ids': 0, 'mixed_dims': 0,
-                     'sequences': n_seq, 'with_real_Rn_odometry_edges': n_real, 'later_calls': sum(1 for im in impl if im.get('step', 0) > 0)}}
+                     'sequences': n_seq, 'with_real_Rn_odometry_edges': n_real, 'scaled_information': sum(1 for c in cases if c.get('scale_pow')), 'later_calls': sum(1 for im in impl if im.get('step', 0) > 0)}}
     if not okm:
         res['coq_errors'].append({'file': 'make lib/GraphZ.vo', 'out': logm[-1500:]})
         return res
